@@ -37,6 +37,7 @@ echo "demo without change rc=$RC_WITHOUT (want 0); with change rc=$RC_WITH (want
 cd /verif
 git -C /repo apply "$OUT/patch.diff" || { echo "cannot apply to /repo"; exit 3; }
 RES=""
+mkdir -p /tmp/evsave-$ID && cp /verif/evidence/*.json /tmp/evsave-$ID/ 2>/dev/null
 for P in $PROP $EXTRA; do
   timeout 1500 ./vrun $P $TIER > /tmp/eval-$ID-$P.log 2>&1; rc=$?
   cp /verif/evidence/$P.json /tmp/eval-$ID-$P.evidence.json 2>/dev/null
@@ -45,6 +46,7 @@ for P in $PROP $EXTRA; do
   RES="$RES{\"check\":\"$P\",\"tier\":\"$TIER\",\"exit\":$rc,\"signatures\":\"$(echo $sig | sed 's/"/\\"/g')\"},"
 done
 git -C /repo checkout -- .
+cp /tmp/evsave-$ID/*.json /verif/evidence/ 2>/dev/null; rm -rf /tmp/evsave-$ID
 # restore evidence of the unchanged tree for the checks we ran
 mkdir -p /verif/seeded/$ID
 cp "$OUT/patch.diff" /verif/seeded/$ID/
